@@ -2,7 +2,7 @@
    Only statements.  Model: Async/Conn.v.  (Termination/no-panic of the whole task for every fault
    position is added as its proof completes; until then it is decided by the correspondence check
    with EOF at every byte offset and a fault at every read / write call index.) *)
-From FV Require Import Base.Bytes Gen.Generated Parser.ReqModel Parser.ReqTargets Parser.StreamModel Async.Conn Async.ConnWrites Async.ConnTotal.
+From FV Require Import Base.Bytes Gen.Generated Parser.ReqModel Parser.ReqTargets Parser.StreamModel Async.Conn Async.ConnWrites Async.ConnTotal Codec.Varint Codec.NV Codec.Vars Parser.ReqWire Parser.AbsStream Parser.StreamSpec Parser.StreamRefine Parser.StreamInv Async.ConnReads Async.LoopTargets Async.LoopProofs.
 
 (* write_all on the transport, for EVERY write script (faults included): either everything was
    written, or the call failed / the task stopped having written only a PREFIX of the bytes —
@@ -62,3 +62,81 @@ Example C12_example_aborted_kind :
   exists w', await_write_all 10 false [1; 2; 3; 4] (mkW [] [2; W_ERR_AB] [] [] 0 1 0 false true []) = Ok (Some EK_Aborted) w'
              /\ wlog w' = [1; 2].
 Proof. eexists. split; reflexivity. Qed.
+
+(* ==== pinned from the proof files (tools/write_props.py) ==== *)
+
+(* 'no handler is invoked for a request whose preamble did not arrive completely': if everything the client
+   will ever deliver (leftover included) is a PROPER prefix of a well-formed preamble — EOF, a transport error
+   or a block anywhere inside it — parse_request never hands over to a handler, whatever the read and write
+   patterns *)
+Theorem C12_no_handler_for_partial_preamble :
+  forall (norm : bytes -> bytes) (maxc : N) (fuel : nat) (B : N) (L : bytes) (w : world) 
+    (pw : preamble) (pairs : list (bytes * bytes)) (missing : list N),
+  B < SIZE_LIMIT - 8 ->
+  bytes_ok L ->
+  len L <= aligned_bufsize B ->
+  world_ok w ->
+  preamble_ok pw ->
+  Forall pair_ok pairs ->
+  nv_write_all pairs = Some (preamble_payload pw) ->
+  Forall (pair_fits (aligned_bufsize B)) pairs ->
+  preamble_fits (aligned_bufsize B) pw ->
+  len (enc_rcds (preamble_rcds pw)) < SIZE_LIMIT ->
+  missing <> [] ->
+  (L ++ remaining w) ++ missing = enc_rcds (preamble_rcds pw) ->
+  forall (s0 : sp) (w' : world),
+  parse_request norm maxc fuel {| cap := aligned_bufsize B; held := L; st := Header |} [] w <>
+  Ok (inl s0) w'.
+Proof. exact no_handler_for_partial. Qed.
+
+(* between requests a transport EOF ends the connection quietly (ConnectionReset), a read error is returned as
+   it is, and the read happens only after the replies were written *)
+Theorem C12_parse_request_eof :
+  forall (norm : bytes -> bytes) (maxc : N) (f : nat) (p : parser) (new : bytes) 
+    (w : world) (p' : parser) (out : bytes),
+  parse norm maxc p new = POk p' false out ->
+  match await_write_all (io_fuel w (len out)) true out w with
+  | Ok (Some k) w1 => parse_request norm maxc (S f) p new w = Ok (inr k) w1
+  | Ok None w1 =>
+      wlog w1 = wlog w ++ out /\
+      remaining w1 = remaining w /\
+      parse_request norm maxc (S f) p new w =
+      match await_read (io_fuel w1 0) true (input_space p') w1 with
+      | Ok (inl []) w'' => Ok (inr EK_Reset) w''
+      | Ok (inl ((_ :: _) as b)) w'' => parse_request norm maxc f p' b w''
+      | Ok (inr k) w'' => Ok (inr k) w''
+      | Halt o w'' => Halt o w''
+      end
+  | Halt o w1 => parse_request norm maxc (S f) p new w = Halt o w1 /\ o <> ODeadlock
+  end.
+Proof. exact parse_request_read_after_flush. Qed.
+
+(* 'an unexpected-EOF error rather than a successful short or empty read': a successful empty read into a non-
+   empty buffer happens only at the stream's end (terminator seen), never because the transport ran dry *)
+Theorem C12_empty_read_means_end_of_stream :
+  forall (maxc : N) (fuel : nat) (c : N) (r : rstate) (w : world) (b : bytes) (r' : rstate) (w' : world),
+  pinv (rsp r) ->
+  bytes_ok (remaining w) ->
+  (length (wscript w) + length (remaining w) + 2 <= fuel)%nat ->
+  0 < c ->
+  poll_input maxc fuel (Some c) r w = (PReady (inl (0, b)), r', w') ->
+  b = [] /\
+  eos (abs (rsp r')) /\
+  stream_buffer (rsp r') = [] /\ K (abs (rsp r)) (remaining w) = K (abs (rsp r')) (remaining w').
+Proof. exact poll_input_zero_is_eof. Qed.
+
+(* the full account of one poll (error cases: UnexpectedEof only with no client byte left or a full buffer; the
+   transport's own error; a sticky parser error) *)
+Theorem C12_poll_input_cases :
+  forall (maxc : N) (fuel : nat) (dest : option N) (r : rstate) (w : world)
+    (p : Conn.pres (N * bytes + N)) (r' : rstate) (w' : world),
+  pinv (rsp r) ->
+  bytes_ok (remaining w) ->
+  (length (wscript w) + length (remaining w) + 2 <= fuel)%nat ->
+  poll_input maxc fuel dest r w = (p, r', w') ->
+  exists dl : bytes,
+    acct maxc [] r w dl r' w' /\
+    pi_case maxc dest dl r w p r' w' /\
+    rwriteable r' = rwriteable r || poll_parses dest r && is_inl p && is_final_stream r.
+Proof. exact poll_input_reads. Qed.
+
